@@ -148,6 +148,22 @@ def wordcountGo : Str → Bool → Nat
 
 def wordcount (s : Str) : Nat := wordcountGo s false
 
+/-! ## wordwrap — filters.py:949-970, with `textwrap.wrap(line, width, …)` as a parameter
+
+  `wrapstring.join([wrapstring.join(textwrap.wrap(line, …)) for line in s.splitlines()])` -/
+
+def wordwrap (wrap : Str → List Str) (ws : Str) (s : Str) : Str :=
+  joinWith ws ((splitlines s).map fun line => joinWith ws (wrap line))
+
+/-- the non-whitespace text of a string, in order -/
+def nonws (s : Str) : Str := s.filter fun c => !isPySpace c
+
+/-- textwrap's contract, part 1: a paragraph's non-whitespace text is kept, in order -/
+def WrapKeepsText (wrap : Str → List Str) : Prop := ∀ line, nonws (wrap line).flatten = nonws line
+
+/-- textwrap's contract, part 2 (`break_long_words=True`): no produced line is longer than the width -/
+def WrapFits (wrap : Str → List Str) (width : Nat) : Prop := ∀ line, ∀ l ∈ wrap line, l.length ≤ width
+
 /-! ## filesizeformat: unit selection — filters.py:706-730
 
   `bytes` is the float value as an exact rational `num/den` (`den > 0`); every finite float is one. -/
